@@ -1271,8 +1271,11 @@ def dmg_check(ctx, geo, st, scenario, via_s3, mout):
                 ctx.disagree(feats + ';symptom=coq_must_fail_vs_numpy', case, must_fail, mout[8],
                              'extracted spec_must_fail differs from the numpy statement', kind='tie')
             if not mout[10]:     # the model then has an empty lost map: only the spec is compared below
-                ctx.disagree('part=vfw_damage;symptom=lost_map_source_not_modelled', case, None, None,
-                             'the lost-map section of vis_flags_weights.py is not the modelled code', kind='tie')
+                if not ctx.searching:
+                    # (when an obligation is already reported as broken - the proof that needs this flag is one - this is
+                    # not a failing INPUT: it was a false alarm on the benign refactor C08-3)
+                    ctx.disagree('part=vfw_damage;symptom=lost_map_source_not_modelled', case, None, None,
+                                 'the lost-map section of vis_flags_weights.py is not the modelled code', kind='tie')
                 model = None
         del n
     ctx.traces_validated += 1
